@@ -91,3 +91,19 @@ def deep_case(seed, cid):
             calls.append({"act": "act", "args": args, "s": si, "mode": "app"})
             calls.append({"act": "act", "args": args, "s": si, "mode": "apply", "allow": True, "skip": False})
     return {"id": cid, "tree": tree, "objs": objs, "states": states, "calls": calls, "ground": False, "prints": [4, "default"]}
+
+
+def big_probe_case(cid, eps):
+    """value pairs k half-tolerances apart at magnitudes 10^6 .. 10^9 (mixed numbers)"""
+    half = Fraction(eps) / 2
+    d = half.denominator
+    probes = []
+    for m in (10 ** 6, 10 ** 7, 10 ** 8, 123456789):
+        for k in (-4, -3, -1, 0, 1, 3, 4):
+            t = k * half.numerator
+            x = [m, 0, d]
+            y = [m, t, d] if t >= 0 else [m - 1, d + t, d]
+            for n, op in OPS.items():
+                probes.append({"name": n, "op": op, "x": x, "y": y})
+    return {"id": cid, "tree": probe_domain(), "objs": [["o1", "t1"]], "states": [], "calls": [], "ground": False,
+            "big_probes": probes}
